@@ -1,7 +1,414 @@
 /- helper lemmas for Deque (C11) -/
 import DC.Proofs.LayerLemmas
+import DC.Proofs.Block
+import DC.Properties.C03_Inv
 import DC.Properties.C10
 
+namespace DC.Cache
+
+/-! ### a table whose rows are all members of one queue -/
+
+theorem qrows_length_all {rows : List Row} {p : Option Str} (h : ∀ r ∈ rows, r ∈ qrows rows p) :
+    (qrows rows p).length = rows.length := by
+  unfold qrows
+  rw [length_isort, List.filter_eq_self.2 (fun r hr => (mem_qrows.1 (h r hr)).2)]
+
+theorem keyRawLtRow_raw {a b : Row} (ha : a.raw = true) : keyRawLtRow a b = klt a b := by
+  unfold keyRawLtRow keyRawLt klt
+  simp [ha]
+
+/-- the `(key, raw)` order and the key order list such a table in the same way -/
+theorem isort_keyRaw_eq_qrows {rows : List Row} (hu : KeysUnique rows) (hn : ∀ r ∈ rows, r.key ≠ .null)
+    {p : Option Str} (h : ∀ r ∈ rows, r ∈ qrows rows p) : isort keyRawLtRow rows = qrows rows p := by
+  symm
+  apply qrows_eq_of_mem hu hn
+  · have hs := isort_sorted_strict keyRawLtRow keyRawLtRow_trans rows (keysUnique_comparable rows hu hn)
+    refine List.Pairwise.imp_of_mem ?_ hs
+    intro a b ha _ hab
+    rw [mem_isort] at ha
+    rw [← keyRawLtRow_raw (qfilter_raw (mem_qrows.1 (h a ha)).2)]
+    exact hab
+  · intro x
+    rw [mem_isort]
+    exact ⟨fun hx => ⟨hx, (mem_qrows.1 (h x hx)).2⟩, fun hx => hx.1⟩
+
+/-! ### `tbegin` / `tend` keep the table -/
+
+@[simp] theorem tbegin_rows (s : Cache) : s.tbegin.rows = s.rows := by
+  unfold tbegin; split <;> rfl
+@[simp] theorem tbegin_cfg (s : Cache) : s.tbegin.cfg = s.cfg := by
+  unfold tbegin; split <;> rfl
+@[simp] theorem tbegin_count (s : Cache) : s.tbegin.count = s.count := by
+  unfold tbegin; split <;> rfl
+@[simp] theorem tbegin_files (s : Cache) : s.tbegin.files = s.files := by
+  unfold tbegin; split <;> rfl
+theorem tbegin_depth_pos (s : Cache) : 0 < s.tbegin.depth := by
+  unfold tbegin; split
+  · exact Nat.one_pos
+  · exact Nat.succ_pos _
+
+@[simp] theorem tend_rows (s : Cache) : s.tend.rows = s.rows := by
+  unfold tend; split
+  · simp only [fremoveAll_rows]; rfl
+  · rfl
+
+/-! ### the files after a `push` inside a block -/
+
+theorem cullW_files (s : Cache) (now : Int) : (s.cullW now).1.files = s.files :=
+  congrArg Core.files (cullW_core s now).1
+
+theorem cullW_cfg_eq (s : Cache) (now : Int) : (s.cullW now).1.cfg = s.cfg :=
+  congrArg Core.cfg (cullW_core s now).1
+
+theorem pushBody_keep (now : Int) (p : Option Str) (back : Bool) (c : Cols) (t : Cache) :
+    (pushBody now p back c t).s.files = t.files ∧ (pushBody now p back c t).s.cfg = t.cfg := by
+  unfold pushBody
+  split
+  · exact ⟨rfl, rfl⟩
+  · simp only
+    split
+    · exact ⟨rfl, rfl⟩
+    · split
+      · exact ⟨rfl, rfl⟩
+      · exact ⟨by rw [cullW_files]; rfl, by rw [cullW_cfg_eq]; rfl⟩
+
+theorem transact_pos_fresh (s : Cache) (body : Cache → Body) (fresh : Option Nat) (hd : s.depth > 0) :
+    ∃ t, t.files = s.files ∧ t.cfg = s.cfg ∧
+      (s.transact body fresh).1.files = (body t).s.files ∧
+      (s.transact body fresh).1.cfg = (body t).s.cfg := by
+  unfold transact
+  simp only [hd, if_true]
+  cases fresh with
+  | none =>
+    refine ⟨s, rfl, rfl, ?_⟩
+    simp only
+    cases h : (body s).ok <;> simp
+  | some f =>
+    refine ⟨{ s with created := s.created ++ [f] }, rfl, rfl, ?_⟩
+    simp only
+    cases h : (body { s with created := s.created ++ [f] }).ok <;> simp
+
+theorem store_files {s s1 : Cache} {E : Externals} {v : PyVal} {rd : Bool} {c : Cols}
+    (hst : s.store E v rd = .ok (s1, c)) : ∃ l, s1.files = s.files ++ l := by
+  unfold store at hst
+  split at hst
+  · cases hst
+  · cases hst; exact ⟨[], by simp⟩
+  · cases hst; exact ⟨_, rfl⟩
+
+/-- inside a block `push` removes no file and keeps the configuration -/
+theorem push_keep_pos (s : Cache) (E : Externals) (now : Int) (v : PyVal) (p : Option Str) (back : Bool)
+    (ttl : Option Int) (tag : SqlVal) (hd : 0 < s.depth) :
+    (∃ l, (s.push E now v p back ttl false tag).1.files = s.files ++ l) ∧
+    (s.push E now v p back ttl false tag).1.cfg = s.cfg := by
+  rw [push_eq]
+  cases hst : s.store E v false with
+  | error e => exact ⟨⟨[], by simp⟩, rfl⟩
+  | ok sc =>
+    obtain ⟨s1, c⟩ := sc
+    obtain ⟨-, h2, h3⟩ := store_spec hst
+    obtain ⟨l, hl⟩ := store_files hst
+    simp only
+    obtain ⟨t, ht1, ht2, hf, hc⟩ := transact_pos_fresh s1
+      (pushBody now p back { c with expT := ttl.map (now + ·), tag := tag }) c.file (by rw [h3]; exact hd)
+    obtain ⟨k1, k2⟩ := pushBody_keep now p back { c with expT := ttl.map (now + ·), tag := tag } t
+    exact ⟨⟨l, by rw [hf, k1, ht1, hl]⟩, by rw [hc, k2, ht2, h2]⟩
+
+theorem fileGet_append {a b : Cache} {l : List (Nat × Content)} (h : b.files = a.files ++ l) {f : Nat}
+    {ct : Content} (hf : a.fileGet f = some ct) : b.fileGet f = some ct := by
+  unfold fileGet at hf ⊢
+  rw [h, List.find?_append]
+  cases hx : a.files.find? (·.1 == f) with
+  | none => rw [hx] at hf; cases hf
+  | some x => rw [hx] at hf; simpa using hf
+
+/-! ### a fetch that works without its file does not depend on the file -/
+
+theorem Disk.fetch_none_indep (E : Externals) (mode : Nat) (file : Option Content) (v : SqlVal) (rd : Bool)
+    (h : Disk.fetch E mode none true v rd ≠ .ioerror) :
+    Disk.fetch E mode file true v rd = Disk.fetch E mode none true v rd := by
+  unfold Disk.fetch at h ⊢
+  split
+  · rfl
+  · split
+    · rename_i h1 h2; simp [h1, h2] at h
+    · split
+      · rename_i h1 h2 h3; simp [h1, h2, h3] at h
+      · split
+        · rename_i h1 h2 h3 h4; simp [h1, h2, h3, h4] at h
+        · rfl
+
+theorem fetch_none_indep (E : Externals) (d : DiskKind) (mode : Nat) (file : Option Content) (v : SqlVal)
+    (rd : Bool) (h : fetch E d mode none true v rd ≠ .ioerror) :
+    fetch E d mode file true v rd = fetch E d mode none true v rd := by
+  cases d with
+  | pickle => exact Disk.fetch_none_indep E mode file v rd h
+  | json =>
+    have h' : Disk.fetch E mode none true v rd ≠ .ioerror := by
+      intro e; apply h; unfold fetch; simp only [e]
+    unfold fetch
+    simp only [Disk.fetch_none_indep E mode file v rd h']
+
+theorem fetchRow_snd_some (s : Cache) (E : Externals) (r : Row) (rd : Bool) {f : Nat} (hf : r.file = some f) :
+    (s.fetchRow E r rd).2 = fetch E s.cfg.disk r.mode (s.fileGet f) true r.val rd := by
+  unfold fetchRow
+  rw [hf]
+  simp only
+  split <;> rfl
+
+theorem fetchRow_snd_none (s : Cache) (E : Externals) (r : Row) (rd : Bool) (hf : r.file = none) :
+    (s.fetchRow E r rd).2 = fetch E s.cfg.disk r.mode none false r.val rd := by
+  unfold fetchRow
+  rw [hf]
+
+/-- a fetch that succeeds still succeeds, with the same result, when files are only added -/
+theorem fetchRow_snd_mono (a b : Cache) (E : Externals) (r : Row) (rd : Bool) (hc : b.cfg = a.cfg)
+    (hf : ∀ f ct, a.fileGet f = some ct → b.fileGet f = some ct)
+    (h : (a.fetchRow E r rd).2 ≠ .ioerror) : (b.fetchRow E r rd).2 = (a.fetchRow E r rd).2 := by
+  cases hr : r.file with
+  | none => rw [fetchRow_snd_none _ _ _ _ hr, fetchRow_snd_none _ _ _ _ hr, hc]
+  | some f =>
+    rw [fetchRow_snd_some _ _ _ _ hr] at h ⊢
+    rw [fetchRow_snd_some _ _ _ _ hr, hc]
+    cases hg : a.fileGet f with
+    | some ct => rw [hf f ct hg]
+    | none =>
+      rw [hg] at h
+      exact fetch_none_indep E a.cfg.disk r.mode _ r.val rd h
+
+/-! ### `push` at any transaction depth -/
+
+theorem tbegin_queueRows (s : Cache) (p : Option Str) : s.tbegin.queueRows p = s.queueRows p := by
+  rw [queueRows_eq, queueRows_eq, tbegin_rows]
+
+theorem tend_queueRows (s : Cache) (p : Option Str) : s.tend.queueRows p = s.queueRows p := by
+  rw [queueRows_eq, queueRows_eq, tend_rows]
+
+/-- `push_back` / `push_front` of C10 without the depth hypothesis, and with the table itself -/
+theorem push_spec_any (s : Cache) (E : Externals) (now : Int) (v : PyVal) (p : Option Str) (back : Bool)
+    (ttl : Option Int) (tag : SqlVal) (hinv : TableInv s) (hq : QueueOk s p)
+    {s1 : Cache} {c : Cols} (hst : s.store E v false = .ok (s1, c))
+    (hb : (colsOf c ttl now tag).bindable = true) (hnc : Quiet s now) (httl : TtlOk ttl)
+    (hor : OriginOk s) (hroom : Room s p) (hp : ∀ q, p = some q → (utf8enc q).isSome = true) :
+    ∃ r : Row, (s.push E now v p back ttl false tag).1.rows = s.rows ++ [r] ∧
+      (s.push E now v p back ttl false tag).1.queueRows p =
+        (if back then s.queueRows p ++ [r] else r :: s.queueRows p) ∧
+      r.mode = c.mode ∧ r.val = c.val ∧ r.file = c.file := by
+  obtain ⟨num, hnum, hfit, hrm, hord⟩ := pushNum_spec s p back hinv hq hor
+  obtain ⟨hn1, hn2⟩ := hrm hroom
+  have hsel := selKey_new_none s p num hn1 hn2 back hord
+  have hbk := bindable_queueKey p num hfit hp
+  obtain ⟨t, ht1, ht2, hrows, -⟩ := push_ok s E now v p back ttl tag hst hnum hsel hb hbk
+  have hcull := insRow_cullW_quiet ht1 ht2 now (queueKey p num) (colsOf c ttl now tag) hnc
+    (colsOf_live c now tag httl)
+  have hinv' := insRow_inv (queueKey p num) true now (colsOf c ttl now tag) hinv hsel
+    (queueKey_ne_null p num)
+  have hR : (s.push E now v p back ttl false tag).1.rows =
+      s.rows ++ [mkRow s.rows (queueKey p num) now (colsOf c ttl now tag)] := hrows.trans hcull
+  refine ⟨mkRow s.rows (queueKey p num) now (colsOf c ttl now tag), hR, ?_, rfl, rfl, rfl⟩
+  rw [queueRows_eq, hR, queueRows_eq]
+  cases back with
+  | true =>
+    simp only [if_true]
+    apply qrows_append_back (rows := s.rows) _ hinv'.tbl.uniq hinv'.tbl.nonnull
+    · exact qfilter_iff.2 ⟨kfilter_queueKey p num hn1 hn2, rfl⟩
+    · intro x hx
+      rw [← queueRows_eq] at hx
+      have := hord x hx
+      simp only [if_true] at this
+      exact this
+  | false =>
+    simp only [Bool.false_eq_true, if_false]
+    apply qrows_append_front (rows := s.rows) _ hinv'.tbl.uniq hinv'.tbl.nonnull
+    · exact qfilter_iff.2 ⟨kfilter_queueKey p num hn1 hn2, rfl⟩
+    · intro x hx
+      rw [← queueRows_eq] at hx
+      have := hord x hx
+      simp only [Bool.false_eq_true, if_false] at this
+      exact this
+
+/-! ### `peek` on an empty queue -/
+
+theorem peek_empty (s : Cache) (E : Externals) (now : Int) (p : Option Str) (front et tg : Bool)
+    (hq : s.queueRows p = []) :
+    (s.peek E now p front et tg).2 = defaultFlags et tg ∧ (s.peek E now p front et tg).1.rows = s.rows := by
+  have hh : qhead s p front = none := by unfold qhead; rw [hq]; cases front <;> rfl
+  unfold peek
+  rw [peekLoop_succ]
+  simp only [hh]
+  exact ⟨trivial, (pullSel_spec s).1⟩
+
+/-- `pull_front` / `pull_back` of C10 in one statement -/
+theorem pull_end (s : Cache) (E : Externals) (now : Int) (p : Option Str) (left : Bool) (hinv : TableInv s)
+    (r : Row) (hr : (if left then (s.queueRows p).head? else (s.queueRows p).getLast?) = some r)
+    (hlive : expired now r = false) (hf : (s.fetchRow E r false).2 ≠ .ioerror) :
+    (s.pull E now p left false false).2 = .tup [.val (column r.key), fetchedOut (s.fetchRow E r false).2] ∧
+    (s.pull E now p left false false).1.queueRows p =
+      (if left then (s.queueRows p).tail else (s.queueRows p).dropLast) := by
+  cases left with
+  | true =>
+    simp only [if_true] at hr ⊢
+    cases hq : s.queueRows p with
+    | nil => rw [hq] at hr; cases hr
+    | cons x rest =>
+      rw [hq] at hr
+      simp only [List.head?_cons, Option.some.injEq] at hr
+      subst hr
+      exact pull_front s E now p hinv x rest hq hlive hf
+  | false =>
+    simp only [Bool.false_eq_true, if_false] at hr ⊢
+    rcases List.eq_nil_or_concat (s.queueRows p) with hq | ⟨front, x, hq⟩
+    · rw [hq] at hr; cases hr
+    · rw [List.concat_eq_append] at hq
+      rw [hq] at hr
+      simp only [List.getLast?_append, List.getLast?_singleton, Option.some_or, Option.some.injEq] at hr
+      subst hr
+      rw [hq, List.dropLast_concat]
+      exact pull_back s E now p hinv x front hq hlive hf
+
+/-! ### looking a row up again by its integer key -/
+
+theorem selLive_of_mem {s : Cache} (hu : KeysUnique s.rows) {r : Row} {k : SqlVal} {raw : Bool} {now : Int}
+    (hr : r ∈ s.rows) (hk : keyMatch k raw r = true) (hl : live now r = true) :
+    s.selLive k raw now = some r := by
+  unfold selLive
+  cases h : s.rows.find? (fun r => keyMatch k raw r && live now r) with
+  | none =>
+    have := List.find?_eq_none.1 h r hr
+    simp [hk, hl] at this
+  | some r' =>
+    have h1 := List.find?_some h
+    have h2 := List.mem_of_find?_eq_some h
+    simp only [Bool.and_eq_true] at h1
+    rw [keysUnique_eq hu h2 hr h1.1 hk]
+
+theorem fetchedOut_ne_default (f : Fetched) : fetchedOut f ≠ .default := by
+  cases f <;> simp [fetchedOut]
+
+/-- `get` of the key read back from a row with an integer key finds that row (pickle disk) -/
+theorem get_int_row (s : Cache) (E : Externals) (now : Int) (r : Row) (i : Int) (hinv : TableInv s)
+    (hr : r ∈ s.rows) (hk : r.key = .int i) (hraw : r.raw = true) (hi : inI64 i = true)
+    (hexp : r.expT = none) (hst : s.statistics = false) (hpol : s.cfg.policy = .none)
+    (hdisk : s.cfg.disk = .pickle) (hf : (s.fetchRow E r false).2 ≠ .ioerror) :
+    (s.get E now (DC.get E s.cfg.disk r.key r.raw) false false false).2 =
+      fetchedOut (s.fetchRow E r false).2 := by
+  have hkey : DC.get E s.cfg.disk r.key r.raw = .int i := by rw [hdisk, hk, hraw]; rfl
+  have hput : DC.put E s.cfg.disk (.int i) = (.int i, true) := by
+    rw [hdisk]; show Disk.put E (.int i) = _
+    unfold Disk.put; simp [hi]
+  have hkm : keyMatch (.int i) true r = true := by
+    unfold keyMatch; rw [hk, hraw]; simp [SqlVal.eqv]
+  have hlive : live now r = true := by unfold live; rw [hexp]
+  have hsel := selLive_of_mem (now := now) hinv.tbl.uniq hr hkm hlive
+  have hfe : ((s.logSql "selLive").fetchRow E r false).2 = (s.fetchRow E r false).2 :=
+    fetchRow_snd_congr_q _ _ E r false rfl rfl
+  unfold get
+  rw [hkey, hput]
+  simp only [hst, hpol, policyUpdates, hsel]
+  rw [if_pos (by decide), hfe]
+  generalize (s.fetchRow E r false).2 = f at hf ⊢
+  cases f <;> simp [withFlags] at hf ⊢
+
+end DC.Cache
+
 namespace DC.Deque
+open DC.Cache
+
+/-! ### positional access -/
+
+theorem rowAt_eq (d : Deque) (L : List Row) (hL : sortedRows d.cache = L)
+    (hc : d.cache.count = (L.length : Int)) (i : Int) :
+    (0 ≤ i ∧ i < (L.length : Int) → d.rowAt i = L[i.toNat]?) ∧
+    (-(L.length : Int) ≤ i ∧ i < 0 → d.rowAt i = L[((L.length : Int) + i).toNat]?) ∧
+    (i ≥ (L.length : Int) ∨ i < -(L.length : Int) → d.rowAt i = none) := by
+  unfold rowAt
+  simp only [hL, hc]
+  refine ⟨?_, ?_, ?_⟩
+  · rintro ⟨h0, h1⟩
+    rw [if_pos h0, if_neg (by omega)]
+  · rintro ⟨h0, h1⟩
+    rw [if_neg (by omega), if_neg (by omega), List.getElem?_reverse (by omega)]
+    congr 1
+    omega
+  · rintro (h | h)
+    · by_cases h0 : i ≥ 0
+      · rw [if_pos h0, if_pos h]
+      · omega
+    · rw [if_neg (by omega), if_pos h]
+
+theorem rowAt_mem (d : Deque) (i : Int) (r : Row) (h : d.rowAt i = some r) : r ∈ d.cache.rows := by
+  unfold rowAt at h
+  simp only at h
+  have hm : ∀ {l : List Row} {k : Nat}, l[k]? = some r → r ∈ l := fun h => List.mem_of_getElem? h
+  split at h
+  · split at h
+    · cases h
+    · exact (mem_isort _).1 (hm h)
+  · split at h
+    · cases h
+    · exact (mem_isort _).1 (List.mem_reverse.1 (hm h))
+
+theorem getitem_none (d : Deque) (E : Externals) (now : Int) (i : Int) (h : d.rowAt i = none) :
+    (d.getitem E now i).2 = .exc "IndexError" := by
+  unfold getitem; rw [h]
+
+theorem getitem_some (d : Deque) (E : Externals) (now : Int) (i : Int) (r : Row) (h : d.rowAt i = some r)
+    (f : Fetched) (hg : (d.cache.get E now (keyOfRow E d.cache r) false false false).2 = fetchedOut f) :
+    (d.getitem E now i).2 = fetchedOut f := by
+  unfold getitem; rw [h]
+  simp only
+  rw [hg]
+  cases f <;> rfl
+
+/-! ### `append` / `appendleft` -/
+
+/-- the state after the push of `append`, before trimming -/
+def pushed (d : Deque) (E : Externals) (now : Int) (v : PyVal) (left : Bool) : Cache :=
+  (d.cache.tbegin.push E now v none (!left) none false .null).1
+
+theorem append_cache (d : Deque) (E : Externals) (now : Int) (v : PyVal) (left : Bool) :
+    (d.append E now v left).1.cache =
+      (if d.tooLong (pushed d E now v left) then
+        ((pushed d E now v left).pull E now none (!left) false false).1
+       else pushed d E now v left).tend := rfl
+
+theorem pushed_spec (d : Deque) (E : Externals) (now : Int) (v : PyVal) (left : Bool)
+    (inv : TableInv d.cache) (pol : d.cache.cfg.policy = .none)
+    (noexp : ∀ r ∈ d.cache.rows, r.expT = none) (qok : QueueOk d.cache none) (room : Room d.cache none)
+    (origin : OriginOk d.cache) {s1 : Cache} {c : Cols}
+    (hst : d.cache.tbegin.store E v false = .ok (s1, c)) (hcb : c.bindable = true) :
+    ∃ r : Row, (pushed d E now v left).rows = d.cache.rows ++ [r] ∧
+      (pushed d E now v left).queueRows none =
+        (if left then r :: d.cache.queueRows none else d.cache.queueRows none ++ [r]) ∧
+      r.mode = c.mode ∧ r.val = c.val ∧ r.file = c.file ∧
+      TableInv (pushed d E now v left) ∧ (pushed d E now v left).cfg = d.cache.cfg ∧
+      (∀ f ct, d.cache.fileGet f = some ct → (pushed d E now v left).fileGet f = some ct) := by
+  have hinv : TableInv d.cache.tbegin := tbegin_inv _ inv
+  have hq : QueueOk d.cache.tbegin none := by unfold QueueOk; rw [tbegin_queueRows]; exact qok
+  have hroom : Room d.cache.tbegin none := by unfold Room; rw [tbegin_queueRows]; exact room
+  have hor : OriginOk d.cache.tbegin := by unfold OriginOk; rw [tbegin_cfg]; exact origin
+  have hnc : Quiet d.cache.tbegin now := by
+    refine Or.inr ⟨by rw [tbegin_cfg]; exact pol, fun r hr => ?_⟩
+    rw [tbegin_rows] at hr
+    unfold expired; rw [noexp r hr]
+  have httl : TtlOk none := by intro t ht; cases ht
+  have hb : (colsOf c none now .null).bindable = true := by
+    unfold Cols.bindable at hcb ⊢
+    simp only [Bool.and_eq_true] at hcb
+    show (DC.Cache.bindable .null && DC.Cache.bindable c.val) = true
+    rw [hcb.2]; rfl
+  obtain ⟨r, h1, h2, h3, h4, h5⟩ := push_spec_any d.cache.tbegin E now v none (!left) none .null hinv hq hst
+    hb hnc httl hor hroom (by intro q hq; cases hq)
+  obtain ⟨⟨l, hl⟩, hcfg⟩ := push_keep_pos d.cache.tbegin E now v none (!left) none .null (tbegin_depth_pos _)
+  rw [tbegin_rows] at h1
+  rw [tbegin_cfg] at hcfg
+  refine ⟨r, h1, ?_, h3, h4, h5, push_inv _ _ _ _ _ _ _ _ _ hinv, hcfg, ?_⟩
+  · rw [tbegin_queueRows] at h2
+    show (d.cache.tbegin.push E now v none (!left) none false .null).1.queueRows none = _
+    rw [h2]
+    cases left <;> rfl
+  · intro f ct hf
+    rw [tbegin_files] at hl
+    exact fileGet_append hl hf
 
 end DC.Deque
